@@ -6,9 +6,13 @@ Supervisor.diff_to_active and the real SupervisorNamespaceRPCInterface.reloadCon
 the old file's config objects), and the real DefaultControllerPlugin.do_update against a proxy that forwards
 reloadConfig to that interface and records the stop/remove/add calls it receives.
 Model side: Model/Reread.lean on the two parser views.
-Monitors: added/removed by name, changed = "any observable option differs (AUTO log file matches anything)" computed
-from the canonical lines of the two independent parses, nothing reported for an unchanged file, CANT_REREAD leaves the
-file configuration and the group table untouched, update's call sequence and its restriction to named groups.
+Monitors: added/removed by name; changed = "some option differs" decided attribute by attribute on two independent
+parses (group kind, priority, number of processes, every process option with AUTO log files as wildcards, a pool's buffer
+size / set of subscribed event types / result handler, an fcgi group's socket url / backlog / mode / owner); nothing
+reported for an unchanged file; CANT_REREAD leaves the file configuration and the group table untouched; update's call
+sequence, its restriction to named groups, and convergence: after update every active group has the file's options, and
+(histories, real EventListenerPool objects) each active pool is subscribed in supervisor.events to exactly the file's
+event types, no removed pool stays subscribed, and a reread after a converged update reports nothing.
 """
 import copy, io, os, re
 import config_l1 as L
@@ -21,8 +25,12 @@ GENERATED = ['Config', 'Reread']
 TRUSTED = C14.TRUSTED + [
     "stopProcessGroup is modelled under 'stops complete' (every process of the group ends in a stopped state); the proxy used for do_update "
     "applies add/remove/stop by their documented preconditions instead of running a daemon",
-    "pool_events are compared as a set by the model; options.py compares the list built by iterating a set of the listed names, whose order for "
-    "the same names written in a different order depends on string hashing (mutations that only reorder events= are not generated)",
+    "pool_events are compared as a set by the model and by the monitors; options.py compares the list built by iterating a set of the listed names, "
+    "whose order for the same names written in a different order / case / with repetitions depends on string hashing: such mutations are generated, "
+    "whether reread lists the pool is then not prescribed (counted as events-respelt:*), convergence of update is still demanded, and the "
+    "correspondence skips the case when the two lists came out in different orders",
+    "an fcgi group's socket owner derived from user= (no socket_owner= option; that option is outside the modelled subset) is represented in the model "
+    "by the uid: SocketConfig.__eq__ only compares owners, and two derived owners are equal exactly when the uids are",
 ]
 ASSUMPTIONS = ["group names within one file are unique (the daemon's group table is keyed by name)"]
 RULE = ("(a) histories: one daemon (real ServerOptions/Supervisor/rpcinterface/do_update, no child ever started) taken through 2-4 file versions with "
@@ -31,9 +39,15 @@ RULE = ("(a) histories: one daemon (real ServerOptions/Supervisor/rpcinterface/d
         "between AUTO and an explicit name, the rest are random mutations incl. unparsable files; after every reread/update the configuration list "
         "that addProcessGroup will use and the active groups' configurations are compared option by option with an independent parse of the file on "
         "disk.  (b) cases = (old file, new file) pairs: new = old with one mutation of a class (one option of one process changed - every option in turn -, "
-        "numprocs grown/shrunk, group/program/listener added, removed, renamed, sections reordered, pool events/buffer changed, program moved "
-        "into or out of a [group:x], section kind changed, file made unparsable, unchanged); distinct by the two parser views; non-trivial when "
-        "the mutation is not 'unchanged'")
+        "an option dropped, numprocs grown/shrunk, group/program/listener added, removed, renamed, sections reordered, program moved "
+        "into or out of a [group:x], section kind changed, file made unparsable, unchanged).  (c) single-attribute mutations of everything that "
+        "distinguishes group configurations, over small files holding every group kind (programs, a [group:x], two listener pools, a tcp and a unix "
+        "fcgi program) and over the random files of (b): events= gains / loses (each element, all but one) / replaces (one, all) / reorders / repeats / "
+        "re-cases an event; buffer_size up, down, dropped, written with its default; result_handler replaced, dropped, written with its default; "
+        "priority of a program, listener, fcgi program and [group:x] changed, dropped, written with its default; programs= of a [group:x] gains, loses, "
+        "replaces, reorders a member; fcgi socket port / host / host case / path / kind, socket_backlog, socket_mode, socket_owner gained, changed, "
+        "dropped -- each as the pair (old, new) AND (new, old), and a sample of them (without fcgi sections) as write/reread/update/reread histories.  "
+        "Distinct by the two parser views; non-trivial when the mutation is not 'unchanged'")
 
 VALUE_POOL = {
     'command': ['/bin/other', '/bin/cat --new'], 'priority': ['7', '998'], 'autostart': ['false', 'true'], 'autorestart': ['true', 'false', 'unexpected'],
@@ -112,6 +126,11 @@ def mutations(rng, cfg, everything):
         out.append(('unparsable', setopt(prog[0], 'startsecs', 'soon')))
     out.append(('unparsable-no-supervisord', [s for s in secs if s[0] != 'supervisord']))
     return out
+
+
+def cap_numprocs(secs, cap=8):
+    """C14 explores large numprocs; here a parse happens 4-8 times per case, so the random files keep at most `cap` processes per section"""
+    return [(s, [(k, str(min(int(v), cap)) if k == 'numprocs' and v.strip().isdigit() else v) for k, v in o]) for s, o in secs]
 
 
 def rng_pick(rng, seq, k):
@@ -225,10 +244,22 @@ def attr_mutations(rng, secs):
     return out
 
 
+def owner_pairs(secs):
+    """socket_owner= is outside the modelled subset, so the small files never carry it; its change (both files have one)
+    is produced here as a pair of its own: [(label, old, new)]"""
+    out = []
+    for si, (sname, opts) in enumerate(secs):
+        if sname.startswith('fcgi-program:') and dict(opts).get('socket', '').startswith('unix://') and 'socket_owner' not in dict(opts):
+            a = list(secs); a[si] = (sname, opts + [('socket_owner', 'root')])
+            b = list(secs); b[si] = (sname, opts + [('socket_owner', 'nobody')])
+            out.append(('attr/fcgi-owner-changed', a, b))
+    return out
+
+
 def attr_base(rng, scratch, fcgi=True):
     """a small file with every kind of group: three programs (two of them in a [group:x]), two listener pools, two
     fcgi programs (tcp and unix socket); numprocs <= 2 so that one parse stays cheap"""
-    names = rng.sample([n for n in L.NAMES], 8)
+    names = rng.sample([n for n in L.NAMES if n.isascii() or rng.random() < 0.2], 8)     # (non-ASCII names: mostly outside the model)
     def sec(nm, kind):
         opts, _ = L.gen_program_opts(rng, nm, scratch, kind=kind, rich=rng.random() < 0.3)
         return [(k, str(min(int(v), 2)) if k == 'numprocs' else v) for k, v in opts]
@@ -253,8 +284,6 @@ def attr_base(rng, scratch, fcgi=True):
             o.append(('socket_mode', rng.choice(['0700', '0770', '0777'])))
         if rng.random() < 0.3:
             o.append(('socket_backlog', str(rng.choice([2, 1024]))))
-        if rng.random() < 0.25:
-            o.append(('socket_owner', rng.choice(['root', 'nobody'])))
         secs.append(('fcgi-program:' + f2, o))
     rng.shuffle(secs)
     return [('supervisord', [])] + secs
@@ -527,7 +556,7 @@ def one_pair(ctx, st, cfg, label, newsecs, tag):
     inst = st_cls['RecParser'].instances
     ctx.case_done((label, repr(cfg['sections']), repr(newsecs)), label != 'unchanged')
     if not inst or old_toks is None or not C14.in_model_subset(a.parser) or not C14.in_model_subset(inst[0]):
-        ctx.count('not-modelled'); return
+        ctx.count('not-modelled'); ctx.count('not-modelled:' + {'a': 'attribute-files', 'p': 'random-files', 'n': 'search'}.get(tag, 'corpus')); return
     if any(label.startswith(x) for x in ('unparsable-no',)) and False:
         return
     if res is not None and fresh.status == 'ok' and any(only_event_order(oldg[n], newg[n]) for n in newg if n in oldg):
@@ -565,7 +594,7 @@ def toggle_logfile(secs, si, rng):
 
 def gen_history(rng, scratch):
     cfg = L.gen_config(rng, scratch, small=True)
-    secs = [s for s in cfg['sections'] if not s[0].startswith('fcgi-program:')]
+    secs = cap_numprocs([s for s in cfg['sections'] if not s[0].startswith('fcgi-program:')], 13)
     steps = []
     def homog(secs):
         grouped = {p.strip() for s, o in secs if s.startswith('group:') for p in dict(o).get('programs', '').split(',')}
@@ -912,6 +941,9 @@ def attr_population(ctx, st, rng, nbases, per_base_histories):
             one_pair(ctx, st, {'sections': new}, label + '~rev', base, 'a')
             if _done(ctx):
                 return
+        for label, a, b in owner_pairs(base):
+            one_pair(ctx, st, {'sections': a}, label, b, 'a')
+            one_pair(ctx, st, {'sections': b}, label + '~rev', a, 'a')
         hbase = [x for x in base if not x[0].startswith('fcgi-program:')]
         hm = attr_mutations(rng, hbase)
         for label, new in rng_pick(rng, hm, per_base_histories):
@@ -972,6 +1004,7 @@ def run(ctx):
     for i in range(ctx.n(8, 80)):
         cfg = L.gen_config(rng, ctx.scratch, small=True)
         cfg['include'] = []
+        cfg['sections'] = cap_numprocs(cfg['sections'])
         for label, newsecs in mutations(rng, cfg, everything=(i % 8 == 0)):
             one_pair(ctx, st, cfg, label, newsecs, 'p')
     bg = Background(ctx)
@@ -1021,12 +1054,13 @@ def search(ctx):
                     one_pair(ctx, st, {'sections': m}, label + '~rev', secs, 'n')
                     if _done(ctx):
                         return
-    attr_population(ctx, st, rng, 6 if ctx.tier == 'quick' else 24, 40)
+    attr_population(ctx, st, rng, 3 if ctx.tier == 'quick' else 12, 20 if ctx.tier == 'quick' else 40)
     if _done(ctx):
         return
-    for i in range(6 if ctx.tier == 'quick' else 40):
+    for i in range(3 if ctx.tier == 'quick' else 20):
         cfg = L.gen_config(rng, ctx.scratch, small=True)
         cfg['include'] = []
+        cfg['sections'] = cap_numprocs(cfg['sections'])
         for label, newsecs in mutations(rng, cfg, everything=True):
             one_pair(ctx, st, cfg, label, newsecs, 'p')
             if _done(ctx):
@@ -1046,10 +1080,14 @@ def replay(ctx, data):
     ctx.correspond('reread', st['cases'], st['impls'])
 
 
-TECHNIQUE = ("Lean 4 theorems over a model of config equality (compared attribute lists and class facts regenerated from options.py), diff_to_active, "
+TECHNIQUE = ("Lean 4 theorems over a model of config equality (compared attribute lists, comparison operands, statement shapes and class facts of the "
+             "four group-level __eq__ methods and of ProcessConfig.__eq__ regenerated from options.py / datatypes.py), diff_to_active, "
              "reloadConfig, add/remove preconditions and do_update's call sequence; differential correspondence of file pairs against the real "
              "ServerOptions + Supervisor.diff_to_active + reloadConfig + DefaultControllerPlugin.do_update")
-LEVEL_TEXT = ("equality is characterised field by field for every pair of configurations (eq_characterised, eq_refl), the three lists of the diff are "
+LEVEL_TEXT = ("equality is characterised field by field for every pair of process configurations (eq_characterised, eq_refl) and of group configurations of "
+              "each kind (group_/pool_/fcgi_/socket_eq_characterised; ne_characterised / changed_exact: a group is listed as changed exactly when its kind, "
+              "priority, a process, buffer size, event subscriptions, result handler or a socket option differs), the shape of the coded comparisons is "
+              "checked (eq_shape_understood, eq_compares_paired), the three lists of the diff are "
               "characterised and disjoint for all group lists, reread provably leaves the group table alone and CANT_REREAD the whole state, "
               "update's call sequence, its restriction to named groups and the convergence of the whole update (active = file, unreported groups "
               "untouched incl. pids, changed/added groups fresh, removed groups gone) are proved for all states and files under 'stops complete'")
